@@ -16,7 +16,9 @@ LEVEL_TEXT = (
     "max/min <Q, X> : Tr_out X = I, X >= 0 -- an explicitly feasible X (re-normalised so that the partial trace is exactly I) and an explicitly feasible Y "
     "(I (x) Y - Q checked by eigenvalues, repaired by a shift); plus primal == dual, max >= min, two repetitions vs. the single-shot optimum and the closed forms cos^2(pi/8), sin^2(pi/8), cos^4(pi/8), 0, 3/4, 9/16, 2/3, 1. "
     "Tolerance 5e-4 for SDP-backed values. No value is proved for all inputs. Proved (E1-integer, reps = 2, 3 and all referee dimensions, answer and question counts): "
-    "ExtendedNonlocalGame(prob, V, reps) stores prob_mat = tensor(prob, reps) and a new table whose block at questions (i, j) is tensor_k V[..., x_k, y_k] with (x_k), (y_k) the base-X / base-Y digits of i / j."
+    "ExtendedNonlocalGame(prob, V, reps) stores prob_mat = tensor(prob, reps) and a new table whose block at questions (i, j) is tensor_k V[..., x_k, y_k] with (x_k), (y_k) the base-X / base-Y digits of i / j. "
+    "Proved (E1-prog, 1 and 2 repetitions, all operators): the four cvxpy programs of QuantumHedging and the primal / dual programs of optimal_clone are the stated ones "
+    "(max / min <Q, X> s.t. the stated partial trace of X equals I, X >= 0; min / max Tr Y s.t. P (I (x) Y) P^* >= / <= Q), solved once, and their optimum is what is returned."
 )
 RULE = (
     "Extended games: named games (BB84, CHSH, BB84 with relabelled answers) plus seeded random games over a fixed list of shapes (referee dim 2..3, answers 1..3, questions 1..3, unequal counts included), real and complex "
@@ -33,6 +35,7 @@ TRUSTED = [
     "quantum_value_lower_bound does not return its strategy, so that it is an achieved value is taken from its construction; it is only compared with the upper bounds",
     "SDP-backed return values are compared with absolute tolerance 5e-4",
 ]
+TRUSTED.append("E1-prog (program contracts): matrices and cvxpy variables are uninterpreted terms; cvxpy semantics assumed (>> / << Loewner order, == equality constraint, @ matrix product, kron / multiply / trace / real by name; Problem(objective, constraints).solve() returns the optimum, which is certified only on the bounded tier); objectives compared modulo Re Tr(Re A) = Re Tr A and Re Tr(A^* B) = <A, B>; the object's _sys / _dim are proved to be what __init__ stores for the enumerated number of repetitions (index bookkeeping evaluated concretely with numpy); _pperm is an opaque operator here (its value is checked by the bounded tier)")
 TRUSTED.append("E1-integer (constructor proof): update_odometer enters through its postcondition proved in C07 (instantiated at the fixed length, instantiation checked by z3); `tensor` is an opaque term (its contract: C16); numpy array contents are tracked by shape and by the slices stored, integers are mathematical")
 ASSUMPTIONS = TRUSTED
 
@@ -794,7 +797,20 @@ def prove(tier, seed):
     from props.reps_prove import prove_reps
 
     replay = [dict(c, function="ExtendedNonlocalGame.__init__") for c in cases("quick", seed) if c["clause"] == "enlg.reps_unent"]
-    return prove_reps("toqito/nonlocal_games/extended_nonlocal_game.py", "ExtendedNonlocalGame.__init__", 4, replay, "c09r", tier)
+    a = prove_reps("toqito/nonlocal_games/extended_nonlocal_game.py", "ExtendedNonlocalGame.__init__", 4, replay, "c09r", tier)
+    # E1-prog: the cvxpy programs of QuantumHedging (four) and optimal_clone (primal / dual) are the stated ones
+    from props.sdp_prove import prove_cvx
+    from vt.pyvc.termproofs import merge
+
+    rep2 = []
+    seen = {}
+    for c in cases("quick", seed):
+        k = c.get("clause", "")
+        if not (k.startswith("hedge") or k.startswith("clone")) or seen.get(k, 0) >= 5:
+            continue
+        seen[k] = seen.get(k, 0) + 1
+        rep2.append(dict(c, function="QuantumHedging" if k.startswith("hedge") else "optimal_clone"))
+    return merge(a, prove_cvx(rep2, "c09p", tier))
 
 
 # =============================================================================================
